@@ -1,12 +1,18 @@
 #!/bin/sh
-# usage: try_mutant.sh <patch.diff> <Cxx> [tier]   - applies the patch in a scratch worktree of /repo HEAD,
-# runs the check against it (VERIF_REPO_DIR), removes the worktree. /repo itself is untouched.
+# usage: try_mutant.sh <patch.diff> <Cxx> [tier]
+# Applies the patch in a scratch worktree of /repo HEAD, runs the check against it (VERIF_REPO_DIR),
+# removes the worktree. /repo itself is untouched. The worktree path is fixed per slot
+# (MUT_SLOT, default 0) so that the Go build cache is reused between runs; do not run two
+# invocations with the same slot at once.
 set -u
 patch=$(readlink -f "$1"); pid=$2; tier=${3:-quick}
-wt=/tmp/mutwt.$$
+slot=${MUT_SLOT:-0}
+wt=/tmp/mutwt/slot$slot
+mkdir -p /tmp/mutwt
+git -C /repo worktree remove --force "$wt" 2>/dev/null
+rm -rf "$wt"
 git -C /repo worktree add -q --detach "$wt" HEAD || exit 3
 if ! git -C "$wt" apply "$patch"; then echo "patch does not apply"; git -C /repo worktree remove --force "$wt"; exit 3; fi
-(cd "$wt" && go build ./... ) || { echo "mutant does not build"; git -C /repo worktree remove --force "$wt"; exit 3; }
 VERIF_EVIDENCE_DIR=/tmp/mut-evidence VERIF_REPLAYS_DIR=/tmp/mut-replays VERIF_REPO_DIR="$wt" /verif/check "$pid" "$tier"; rc=$?
 git -C /repo worktree remove --force "$wt"
 echo "mutant rc=$rc"
